@@ -1,7 +1,7 @@
 (* P_C06 — Derivative, gradient (and Hessian) are the formal partial derivatives. *)
 From mathcomp Require Import all_ssreflect all_algebra.
 From SsrMultinomials Require Import mpoly.
-From NP Require Import Base Poly Deriv Abs Align Arith DerivP StackP.
+From NP Require Import Base Poly Deriv Abs Align Arith DerivP StackP HessP.
 Set Implicit Arguments. Unset Strict Implicit. Unset Printing Implicit Defensive.
 Import GRing.Theory.
 Local Open Scope ring_scope.
@@ -54,6 +54,16 @@ Theorem C06_gradient o p (vs : seq 'I_n) r :
         absE n r (j * psize p + i) = (absE n p i)^`M(nth v0 vs j)].
 Proof. exact: gradient_spec. Qed.
 
+
+(* hessian: shape (D, D) + p.shape, entry (k, j) is the second partial with respect to the j-th and then the
+   k-th indeterminate — for every option record *)
+Theorem C06_hessian o p (vs : seq 'I_n) r :
+  wfb p -> names p = [seq nat_of_ord v | v <- vs] -> hessian o p = Ok r ->
+  let D := size (names p) in
+  [/\ wfb r, shape r = D :: D :: shape p &
+      forall (v0 : 'I_n) k j i, (k < D)%N -> (j < D)%N -> (i < psize p)%N ->
+        absE n r (k * (D * psize p) + (j * psize p + i)) = ((absE n p i)^`M(nth v0 vs j))^`M(nth v0 vs k)].
+Proof. exact: hessian_spec. Qed.
 End C06.
 
 Print Assumptions C06_derivative.
@@ -62,3 +72,4 @@ Print Assumptions C06_mixed_partials_commute.
 Print Assumptions C06_linear.
 Print Assumptions C06_product_rule.
 Print Assumptions C06_gradient.
+Print Assumptions C06_hessian.
